@@ -899,8 +899,8 @@ class Machine(object):
                 n &= bits - 1
             if n >= 32:
                 self.flags.add("shift-count-beyond-32")
-            if a < 0 and n > 0:
-                self.unspec.add("rshift-of-negative")               # standard Forth: logical; C++ >>: arithmetic; docs silent
+            # a negative number is shifted arithmetically: pinned by tests/test_0648 ("-5 1 rshift" -> -3), where the logical
+            # result of standard Forth is commented out
             st[-1] = a >> n
         elif w == "false":
             self.push(0)
@@ -1022,11 +1022,11 @@ class Machine(object):
                 self.unspec.add("after-error:stack")
                 self.unspec.add("after-error:pos")
                 self.flags.add("negative-repeat-count")
-                if kind in ("typed", "nbit"):
-                    raise _Fault("read beyond")
-                count = 0
-            if count > (1 << 16):
-                raise BudgetExceeded()
+                raise _Fault("read beyond")
+            if count > 8 * (len(self.inputs[k]) - self.pos[k]):
+                # every item takes at least one bit of input
+                self.unspec.add("after-error:stack")
+                raise _Fault("read beyond")
         try:
             if kind == "typed":
                 size, vk = READERS[letter]
